@@ -64,8 +64,8 @@ def stepKern (st : St) (cmd : List String) (got : String) : Option (St × Verdic
   | "kern" :: op :: c1 :: c2 :: rest =>
     match parseContTok c1, (if c2 == "-" then some none else (parseContTok c2).map some), rest.mapM String.toInt? with
     | some ca, some cb, some args =>
-      let a := ca.toBSet 0
-      let b := match cb with | some c => c.toBSet 0 | none => []
+      let a := ca.toBSetFast 0
+      let b := match cb with | some c => c.toBSetFast 0 | none => []
       match kernSem op a b args with
       | none => some (st, if got.startsWith "skip" || got.startsWith "panic" then none else some "skip-or-panic (out of domain)")
       | some (expSet, expScal) =>
@@ -78,7 +78,7 @@ def stepKern (st : St) (cmd : List String) (got : String) : Option (St × Verdic
             | some s, "-" => if s.isEmpty then none else some ("result " ++ dump s)
             | some s, r => match parseContTok r with
                 | none => some "parsable result"
-                | some c => if c.toBSet 0 == s then none else some ("result set " ++ (dump s).take 300)
+                | some c => if c.toBSetFast 0 == s then none else some ("result set " ++ (dump s).take 300)
           let scOk : Verdict :=
             match expScal with
             | none => none
@@ -87,13 +87,13 @@ def stepKern (st : St) (cmd : List String) (got : String) : Option (St × Verdic
             if alias == "arg" || alias == "arg-backing" then some "result must not alias the argument" else none
           let bOk : Verdict :=
             match cb, parseContTok bAfterS with
-            | some _, some c' => if c'.toBSet 0 == b then none else some ("argument unchanged: " ++ (dump b).take 200)
+            | some _, some c' => if c'.toBSetFast 0 == b then none else some ("argument unchanged: " ++ (dump b).take 200)
             | some _, none => some "parsable argument"
             | none, _ => none
           let aOk : Verdict :=
             if inPlaceOps.contains op then none else
             match parseContTok aAfterS with
-            | some c' => if c'.toBSet 0 == a then none else some "receiver unchanged by a non-in-place kernel"
+            | some c' => if c'.toBSetFast 0 == a then none else some "receiver unchanged by a non-in-place kernel"
             | none => some "parsable receiver"
           -- L2 tie: on two array containers the Go result, when it is an array, is literally the list the
           -- modelled two-pointer kernel produces
@@ -155,7 +155,7 @@ def stepKern (st : St) (cmd : List String) (got : String) : Option (St × Verdic
   | ["densechk"] => some (st, expect "ok" got)
   | ["mkrepr", x, reprS] =>
     match parseRep reprS with
-    | some r => let s := r.toBSet
+    | some r => let s := r.toBSetFast
                 some ({ st with bm := st.bm.insert x s }, expect (digest s) got)
     | none => some (skipV st got)
   | _ => none
